@@ -334,6 +334,14 @@ func c06Build(r *sim.Run, t *sim.Tape, scheme string, first bool) (*mp4.InitSegm
 				} else {
 					b, name := foreignBoxC06(t, rnd, "moof")
 					_ = frag.Moof.AddChild(b)
+					if t.Bool() {
+						// in front of the traf: [mfhd, X, traf]
+						ch := frag.Moof.Children
+						if n := len(ch); n >= 3 {
+							frag.Moof.Children = append(append(append([]mp4.Box(nil), ch[0]), ch[n-1]), ch[1:n-1]...)
+							name += "(before traf)"
+						}
+					}
 					p.foreign = append(p.foreign, "moof:"+name)
 				}
 			}
@@ -422,14 +430,14 @@ func c06Run(r *sim.Run) {
 	}
 	rnd := t.Sub()
 	scheme := []string{"cenc", "cbcs"}[t.Draw(2)]
-	key := make([]byte, 16)
-	rnd.Fill(key)
+	keyBuf := make([]byte, 16) // the caller's key buffer: reused for a second key below
+	rnd.Fill(keyBuf)
 	iv := randIV(t, rnd)
 	r.Logf("scheme=%s iv=%x (%d bytes)", scheme, iv, len(iv))
 	r.Event("scheme", t.Draw(1), len(iv))
 	var p *c06Prod
 	var err error
-	r.Guard("producer+encryptor", func() { p, err = c06Produce(r, scheme, key, iv) })
+	r.Guard("producer+encryptor", func() { p, err = c06Produce(r, scheme, keyBuf, iv) })
 	if err != nil {
 		r.Violate("c06-encrypt-error", "encrypting a clear %s track failed: %v", scheme, err)
 		return
@@ -437,8 +445,41 @@ func c06Run(r *sim.Run) {
 	if p == nil {
 		return
 	}
+	k1 := append([]byte(nil), keyBuf...)
 	r.Logf("produced %s/%s: %d samples, %d segments, foreign=%v", p.codec, p.media, len(p.log), len(p.encSegs), p.foreign)
 	r.NonTriv = true
+	if t.Chance(300) {
+		// a second, unrelated track is encrypted with ANOTHER key held in the SAME caller buffer, before anything
+		// is decrypted; then both are played back, each with its own key (a legal multi-step caller history)
+		rnd.Fill(keyBuf)
+		scheme2 := []string{"cenc", "cbcs"}[t.Draw(2)]
+		var p2 *c06Prod
+		r.Guard("producer+encryptor(2)", func() { p2, err = c06Produce(r, scheme2, keyBuf, randIV(t, rnd)) })
+		if err != nil || p2 == nil {
+			r.Violate("c06-encrypt-error", "encrypting a second clear %s track failed: %v", scheme2, err)
+			return
+		}
+		k2 := append([]byte(nil), keyBuf...)
+		r.Probe("two-tracks-two-keys-one-buffer")
+		r.Event("two-keys")
+		order := t.Bool()
+		if order {
+			c06Play(r, p2, k2)
+			c06Play(r, p, k1)
+		} else {
+			c06Play(r, p, k1)
+			c06Play(r, p2, k2)
+		}
+		return
+	}
+	c06Play(r, p, k1)
+}
+
+// c06Play is the player node: fetches the encrypted production (whole or init + segments in seeded order with
+// repeats), decrypts with key and applies the oracles against the clear production.
+func c06Play(r *sim.Run, p *c06Prod, key []byte) {
+	t := r.T
+	var err error
 	boxTree := t.Bool()
 	cfg := sim.DrawDelivery(t)
 	viaSR := t.Bool()
